@@ -94,6 +94,14 @@ def write_forms():
     return F
 
 
+# where inside the context's expression the (int valued) writing sub-expression sits
+WRAPPERS = [("bare", "%s"), ("operand", "(%s + 1)"), ("right-operand", "(2 * %s)"), ("call-argument", "idf(%s)"), ("array-index", "kw2[(%s) & 1]"),
+            ("inline-if-condition", "(%s > 0 ? 1 : 2)"), ("inline-if-branch", "(k > 0 ? %s : 1)"), ("unary-minus", "(-%s)"),
+            ("nested-call-argument", "idf(idf(%s) + 1)"), ("comparison", "(%s >= 0 ? 1 : 0)")]
+WRAP_DECL = "int idf(int q) { return q; }\nconst int kw2[2] = {1, 2};\n"
+
+CORE_FORMS = {"array-element", "struct-field", "inline-if-lvalue", "target-cond-local-global-=", "target-global-post++", "stmt-if",
+              "stmt-while-cond", "call-chain-3"}
 LOCAL_ONLY = ("local-only-writer", "int lw() { int t = 0; t = 1; t++; return t + k; }\n", None, "lw()", "lw()")
 
 
@@ -151,12 +159,16 @@ def run_shard(cid):
     if cid in CONTEXTS:
         mk, ct = CONTEXTS[cid]
         for fid, decl, we, re_, rk in forms:
-            if we is not None:
-                docs.append(mk(GDECL + decl, we))
-                meta.append((fid, "write", we))
-            twin = rk if ct else re_
-            docs.append(mk(GDECL + decl, twin))
-            meta.append((fid, "twin", twin))
+            # every wrapper for the core forms, the bare placement for the rest (the product stays small)
+            wrs = WRAPPERS if (fid.startswith(("assign", "post", "pre", "call-", "fn-assign=", "ref-param")) or fid in CORE_FORMS) else WRAPPERS[:1]
+            for wid, wr in wrs:
+                tag = fid if wid == "bare" else fid + "@" + wid
+                if we is not None:
+                    docs.append(mk(GDECL + WRAP_DECL + decl, wr % we))
+                    meta.append((tag, "write", wr % we))
+                twin = rk if ct else re_
+                docs.append(mk(GDECL + WRAP_DECL + decl, wr % twin))
+                meta.append((tag, "twin", wr % twin))
         res = X.run_docs(w, docs, want=["noinv"], batch=50)
         verdicts = [(None if r.get("died") else X.accepted(r), r) for r in res]
     else:
@@ -213,8 +225,10 @@ def main():
                         "initialisers, array size, range bound, instantiation argument, forall/exists/sum body, assert, channel "
                         "priority, 4 query forms) x %d write forms (11 assignment operators, ++/-- pre/post, "
                         "array element, struct field, inline-if/comma lvalues, writer calls and chains of depth 1-3, the write inside "
-                        "13 statement forms, reference parameters) - each cell with a read-only twin and a local-only-writer control."
-                        % (len(CONTEXTS) + len(QUERY_CONTEXTS), nforms))
+                        "13 statement forms, reference parameters; 13 target shapes x 4 operators inside functions with locals) - each cell with a "
+                        "read-only twin and a local-only-writer control; the core forms additionally at %d positions inside the "
+                        "context's expression (operand, call argument, array index, inline-if condition/branch, ...)."
+                        % (len(CONTEXTS) + len(QUERY_CONTEXTS), nforms, len(WRAPPERS)))
     for res in engine.pmap(run_shard, list(CONTEXTS) + list(QUERY_CONTEXTS)):
         rep.merge(res)
     rep.assumptions = ["in compile-time contexts the twin reads constants only (a read of a variable is rejected there for C13's reason)",
